@@ -14,7 +14,7 @@ observable failure is reported as drift only."""
 import json, os, random
 import vlib
 from vlib import Report, tlc, tlc_ok, dlv, write_ndjson, read_ndjson, log
-from frontend_common import UNIVERSE, OPEN_FLAGS, random_history
+from frontend_common import UNIVERSE, OPEN_FLAGS, BASE_ENV, random_history
 
 PID = "C10"
 
@@ -26,7 +26,7 @@ def validate(rep, histories, label):
     tp = os.path.join(wd, "trace-%s.ndjson" % label)
     dlv(["frontend", "--histories", hp, "--out", tp])
     nrows = sum(1 for _ in open(tp))
-    obs = tlc("trace/FrontendObs", workers=1, dfs=True, timeout=3000, env={"TRACE": tp}, xmx="6g")
+    obs = tlc("trace/FrontendObs", workers=1, dfs=True, timeout=3000, env=dict(BASE_ENV, TRACE=tp), xmx="6g")
     tlc_ok(obs, "FrontendObs(%s)" % label)
     if not obs.tagged("CONSUMED"):
         raise vlib.ToolError("FrontendObs did not consume the whole %s trace (driver and specification disagree on the events)" % label)
@@ -35,7 +35,7 @@ def validate(rep, histories, label):
         if b["kind"] == "fresh-mismatch":
             raise vlib.ToolError("the specification's fresh-run stamp disagrees with the real fresh run in history %s (event %d): model or driver error" % (b["id"], b["at"]))
         bad.setdefault(b["id"], []).append(b)
-    env = dict(OPEN_FLAGS)
+    env = dict(BASE_ENV, **OPEN_FLAGS)
     env["TRACE"] = tp
     tr = tlc("trace/FrontendTrace", workers=1, dfs=True, timeout=3000, env=env, xmx="6g")
     tlc_ok(tr, "FrontendTrace(%s)" % label)
@@ -62,11 +62,11 @@ def run(tier):
     rng = random.Random(vlib.seed())
     depth = 5 if tier == "quick" else 7
     # G1: ideal design
-    g1 = tlc("mc/MC_Frontend", workers=8, timeout=3000, env={"MAXSTEPS": depth}, xmx="12g")
+    g1 = tlc("mc/MC_Frontend", workers=8, timeout=3000, env=dict(BASE_ENV, MAXSTEPS=depth), xmx="12g")
     if g1.rc != 0:
         vlib.tlc_ok(g1, "MC_Frontend (ideal design): the model itself violates C10")
     # G2: code-shaped
-    env = dict(OPEN_FLAGS)
+    env = dict(BASE_ENV, **OPEN_FLAGS)
     env["MAXSTEPS"] = depth
     g2 = tlc("mc/MC_Frontend", workers=8, timeout=3000, env=env, xmx="12g")
     tlc_ok(g2, "MC_Frontend (code-shaped, cut at open triggers)")
